@@ -16,7 +16,7 @@ import (
 func init() {
 	core.Register(&core.Prop{
 		ID: "C04",
-		Rule: "case = one random geometry of the 8 types (1.2% carry one long path of 63..65537 vertices - lengths on both sides of 64, 256, 1024, 4096, 8192, 16384, 65536 - whose unique X/Y extreme sits at the first/last few positions or next to n/4, n/2, 3n/4 or a power of two; empty members first/last/in runs, collections nested to depth 4, coordinates from a pool with -0, ±Inf, ±MaxFloat64, subnormals) judged by Points/Len/Bounds against the harness flattening and min/max fold, " +
+		Rule: "case = one random geometry of the 8 types (1.2% carry one long path of 63..65537 vertices - lengths on both sides of 64, 256, 1024, 4096, 8192, 16384, 65536 - whose unique X/Y extreme sits at the first/last few positions or next to n/4, n/2, 3n/4 or a power of two; empty members first/last/in runs, collections nested to depth 4 (3%: chains nested 5-10 deep with members before and after the nested one at every level), coordinates from a pool with -0, ±Inf, ±MaxFloat64, subnormals) judged by Points/Len/Bounds against the harness flattening and min/max fold, " +
 			"or one pair/triple of boxes judged against the lattice laws; non-trivial = geometry containing at least one empty member next to a non-empty one, or a box pair that touches/overlaps/nests/is separated on exactly one axis; distinct by content hash",
 		Assumptions: []string{"NaN coordinates excluded (min/max of NaN is outside the property)", "only the canonical empty box (NewBounds) is used as 'empty'"},
 		Phases: []core.Phase{
@@ -35,7 +35,7 @@ func init() {
 		},
 		Run: run,
 		Floors: func(t string) map[string]int64 {
-			return map[string]int64{"geom.with_empty_member": 1000, "geom.empty_run>=2": 100, "geom.empty_collection": 50, "box.touching": 100, "box.empty_operand": 100, "box.sep_one_axis": 100, "box.extreme_extent": 500, "geom.long_path": 200, "storage.paths_share_one_backing_array": 3000, "geom.long_path>=4096": 60,
+			return map[string]int64{"geom.with_empty_member": 1000, "geom.empty_run>=2": 100, "geom.empty_collection": 50, "box.touching": 100, "box.empty_operand": 100, "box.sep_one_axis": 100, "box.extreme_extent": 500, "geom.long_path": 200, "geom.collections_nested_5_to_10_deep": 500, "storage.paths_share_one_backing_array": 3000, "geom.long_path>=4096": 60,
 				"type.Point": 10, "type.MultiPoint": 10, "type.LineString": 10, "type.MultiLineString": 10, "type.Polygon": 10, "type.MultiPolygon": 10, "type.GeometryCollection": 10, "type.*Bounds": 10}
 		},
 	})
@@ -143,6 +143,38 @@ func runGeom(c *core.Ctx) {
 	// all kinds evenly at top level
 	k := o.Kinds[r.Intn(len(o.Kinds))]
 	g := gen.RandGeomKind(r, o, k, 0)
+	if r.Chance(0.03) {
+		// collections nested 5 .. 10 levels deep, every level with (possibly empty) members before
+		// and after the nested collection
+		depth := r.IntRange(5, 10)
+		leaf := func() geom.Geom {
+			switch r.Intn(5) {
+			case 0:
+				return geom.MultiPoint{}
+			case 1:
+				return geom.LineString{}
+			case 2:
+				return geom.GeometryCollection{}
+			case 3:
+				return geom.Point{X: coord(r), Y: coord(r)}
+			}
+			return geom.LineString{{X: coord(r), Y: coord(r)}, {X: coord(r), Y: coord(r)}}
+		}
+		var inner geom.Geom = geom.GeometryCollection{leaf(), leaf()}
+		for d := 0; d < depth; d++ {
+			gc := geom.GeometryCollection{}
+			for k := r.Intn(3); k > 0; k-- {
+				gc = append(gc, leaf())
+			}
+			gc = append(gc, inner)
+			for k := r.Intn(3); k > 0; k-- {
+				gc = append(gc, leaf())
+			}
+			inner = gc
+		}
+		g = inner
+		c.Count("geom.collections_nested_5_to_10_deep")
+	}
 	var bigDesc map[string]interface{}
 	if r.Chance(0.012) {
 		// one long path (lengths on both sides of 64 ... 65536) whose unique X or Y extreme sits
